@@ -993,5 +993,5 @@ add("vm_mklist", "C06,C01", t_mklist, "MkList(n) builds the list of the last n p
 add("vm_mkdict", "C06,C01", t_mkdict, "MkDict(n), n <= 2: (key, value) pairs, keys must be strings; for a repeated key the entry that comes last in the source wins")
 add("vm_fmt", "C14,C01", t_fmt, "FmtString(n) concatenates its n string segments in push order; a non-string segment fails")
 add("vm_access", "C06,C12,C08,C01", t_access, "m.k: the value stored under k wins over a method named k; absent field is an absent-field failure value; a.b on other kinds binds a method or fails")
-add("vm_call", "C12,C01", t_call, "Call on an identifier: bound function, then macro, then type constructor, else 'not callable'; arguments in source order")
+add("vm_call", "C12,C09,C01", t_call, "Call on an identifier: bound function, then macro, then type constructor, else 'not callable'; arguments in source order")
 add("vm_method", "C12,C01", t_method_call, "obj.name(args): bound call through Access + Call")
